@@ -13,7 +13,7 @@ O: TenantView.tla (TLC), one block of events per scenario and tenant: (1) single
    told must be explained by its own history; (2) paired runs - the observer's solo answers obey the same view and its
    searches over un-drained recent writes are equal in both runs.
 """
-import json, math, os, random, struct, time
+import hashlib, json, math, os, random, struct, time
 from concurrent.futures import ThreadPoolExecutor
 
 import vlib, srvlib
@@ -167,6 +167,10 @@ def abs_meta(md):
     return m, odd, rk
 
 
+def rotated_out_key(tenant):
+    return "kyro_%s_%s" % (tenant, hashlib.sha256(("verif-rotated-out:" + tenant).encode()).hexdigest()[:32])
+
+
 class Scenario:
     def __init__(self, si, scn, sd):
         self.si, self.nt, self.steps = si, scn["nt"], scn["steps"]
@@ -182,6 +186,9 @@ class Scenario:
         self.tn = {t: names[t - 1] for t in range(1, self.nt + 1)}
         self.keys = [{"tenant_id": self.tn[t], "max_vectors": LIMIT_A if t == 1 else NI} for t in range(1, self.nt + 1)]
         self.keys += [{"tenant_id": "zdis", "enabled": False}, {"tenant_id": "zadm", "is_admin": True}]
+        # every tenant also has a rotated-out key: a second entry with the same tenant id, another secret, enabled = false
+        self.keys += [{"tenant_id": self.tn[t], "key": rotated_out_key(self.tn[t]), "enabled": False,
+                       "max_vectors": LIMIT_A if t == 1 else NI} for t in range(1, self.nt + 1)]
         self.cfg = {"hnsw": {"dimension": DIM, "distance": self.metric, "max_elements": 100000},
                     "cache": {"capacity": 4096, "hot_tier_max_age_secs": 3600, "query_cache_similarity_threshold": 1.0}}
         self.idx = {}             # tenant number -> tenant index in the server (read from tenants.json)
@@ -236,7 +243,8 @@ class Scenario:
         if k == "none":
             return ""
         if k == "disabled":
-            return srvlib.derive_key("zdis")
+            # the key of a tenant that has no enabled key at all, or the addressed tenant's own rotated-out key
+            return srvlib.derive_key("zdis") if self.rnd.random() < 0.4 else rotated_out_key(self.tn[r["t"]])
         return "kyro_%s_%032x" % (self.tn[r["t"]], self.rnd.getrandbits(128))
 
     def item(self, it, r):
